@@ -4,6 +4,7 @@ import (
 	"context"
 	"fmt"
 	"strings"
+	"sync"
 	"time"
 
 	"github.com/gopcua/opcua"
@@ -57,11 +58,16 @@ func c25Body(p c25Params) func() {
 		n := vnet.Net()
 		addr := "127.0.0.1:4840"
 		restart := make(chan struct{}, 4)
+		var emu sync.Mutex // the operator replaces e when it restarts the server
+		cur := func() *env { emu.Lock(); defer emu.Unlock(); return e }
 		go func() { // the operator: restarts the server when asked
 			for range restart {
 				n.SetDown(addr, true)
 				e.srv.Close()
-				e = startServer(ctx, 1)
+				ne := startServer(ctx, 1)
+				emu.Lock()
+				e = ne
+				emu.Unlock()
 				n.SetDown(addr, false)
 			}
 		}()
@@ -113,7 +119,7 @@ func c25Body(p c25Params) func() {
 			connected = true
 		}
 		if connected {
-			if _, _, err := readInt(ctx, c, e.nodeID(0)); err != nil {
+			if _, _, err := readInt(ctx, c, cur().nodeID(0)); err != nil {
 				obs.read1 = err.Error()
 			}
 			// The server is reachable again at the latest 3.1 intervals after the last fault. A fault that
@@ -122,7 +128,7 @@ func c25Body(p c25Params) func() {
 			for attempt := 0; attempt < 2+len(p.Faults); attempt++ {
 				time.Sleep(20 * c25Interval)
 				obs.stateAfterRec = c.State()
-				_, _, err := readInt(ctx, c, e.nodeID(0))
+				_, _, err := readInt(ctx, c, cur().nodeID(0))
 				if err == nil && obs.stateAfterRec == opcua.Connected {
 					obs.read2 = ""
 					break
